@@ -63,13 +63,19 @@ def h_ray2d(cx, ray1=None):
         cx.eq('t2', t2, _cross2(_sub(p2, p1), d1) / cr)
 
 
-def h_ray3d(cx, kind, ray1=None):
+def h_ray3d(cx, kind, ray1=None, scaled=None):
     R = geo.M('ray')
     if ray1 is None:
         p1, d1 = cx.reals('p1', 3), cx.reals('d1', 3)
     else:
         p1, d1 = cx.consts(ray1[0]), cx.consts(ray1[1])
     d2 = cx.reals('d2', 3)
+    if scaled is not None:
+        # small geometry: fixed directions times ONE symbolic size sc >= 1e-4 (the routine's own tolerance, 5.7e-14 on
+        # the cross product, is a design decision and limits the claim to sizes above about 1e-6)
+        sc = cx.real('sc', lo=F(1, 10000))
+        p1, d1 = [sc * x for x in p1], [sc * x for x in d1]
+        d2 = [sc * x for x in cx.consts(scaled)]
     a, b = cx.real('a'), cx.real('b')
     n = _cross3(d1, d2)
     nn = _dot(n, n)
@@ -79,11 +85,15 @@ def h_ray3d(cx, kind, ray1=None):
         off = cx.reals('o', 3)
         p2 = [p1[i] + off[i] for i in range(3)]
     else:
-        cx.assume(nn >= F(1, 100))
+        if scaled is None:
+            cx.assume(nn >= F(1, 100))
         p2 = [p1[i] + a * d1[i] - b * d2[i] for i in range(3)]
         if kind == 'skew':
             c = cx.real('c')
-            cx.assume(c * c * nn >= F(1, 10000))
+            if scaled is None:
+                cx.assume(c * c * nn >= F(1, 10000))
+            else:
+                cx.assume(cx.any_of([c >= F(1, 10), c <= F(-1, 10)]))
             p2 = [p2[i] + c * n[i] for i in range(3)]
     q1 = [p1[i] + d1[i] for i in range(3)]
     q2 = [p2[i] + d2[i] for i in range(3)]
@@ -254,14 +264,18 @@ def h_voxel_grid(cx, sz, use_cubes=False):
         cx.ge('last_max_covers[%d]' % i, grid[-1][1][i], hi[i])
 
 
-def h_voxelize(cx, sz, num_procs=1, tol=None):
+def h_voxelize(cx, sz, num_procs=1, tol=None, flat=False):
     """voxelize a bilinear patch with one symbolic corner height: filled[i] == 1 <=> a sampled point lies in cell i"""
     VX = geo.M('voxelize')
     B = geo.M('BSpline')
     z = cx.real('z', lo=F(1, 10), hi=F(9, 10))
     s = B.Surface()
     s.degree_u, s.degree_v = 1, 1
-    s.set_ctrlpts([[0, 0, 0], [0, 1, 0], [1, 0, 1], [1, 1, z]], 2, 2)
+    if flat:
+        # a plate in the plane z = const: the bounding box has no extent along one axis
+        s.set_ctrlpts([[0, 0, z], [0, 1, z], [1, 0, z], [1, 1, z]], 2, 2)
+    else:
+        s.set_ctrlpts([[0, 0, 0], [0, 1, 0], [1, 0, 1], [1, 1, z]], 2, 2)
     s.knotvector_u = [0, 0, 1, 1]
     s.knotvector_v = [0, 0, 1, 1]
     s.sample_size = 3
@@ -271,7 +285,11 @@ def h_voxelize(cx, sz, num_procs=1, tol=None):
     if tol is not None:
         kw['tol'] = cx.const(tol)        # padding of every voxel (default 10e-8)
     grid, filled = VX.voxelize(s, grid_size=sz, **kw)
-    cx.check('sizes', len(grid) == len(filled) == sz[0] * sz[1] * sz[2], '%d cells, %d flags' % (len(grid), len(filled)))
+    if flat:
+        cx.check('flat_grid_nonempty', len(grid) == len(filled) and len(grid) >= sz[0] * sz[1], '%d cells, %d flags' % (len(grid), len(filled)))
+        cx.check('flat_some_filled', any(filled), 'no voxel filled')
+    else:
+        cx.check('sizes', len(grid) == len(filled) == sz[0] * sz[1] * sz[2], '%d cells, %d flags' % (len(grid), len(filled)))
     if len(grid) != len(filled):
         return
     pts = s.evalpts
@@ -388,6 +406,8 @@ def instances(tier):
     for kind in ('intersect', 'skew', 'parallel'):
         for r in rays3[: (2 if quick and kind != 'intersect' else 4)]:
             out.append(inst('ray3d %s p%s d%s' % (kind, r[0], r[1]), h_ray3d, timeout=1800, kind=kind, ray1=r))
+    for kind in ('intersect', 'skew'):
+        out.append(inst('ray3d %s small geometry (symbolic size)' % kind, h_ray3d, timeout=1800, kind=kind, ray1=((1, 2, 3), (0, 1, 1)), scaled=(1, 0, 2)))
     out.append(inst('is_left', h_is_left))
     out.append(inst('wn_poly symbolic triangle', h_wn_triangle, timeout=1800))
     for i, poly in enumerate(_simple_polygons(quick)):
@@ -408,6 +428,8 @@ def instances(tier):
     out.append(inst('voxelize bilinear patch (2,2,2)', h_voxelize, timeout=1800, sz=(2, 2, 2)))
     if not quick:
         out.append(inst('voxelize bilinear patch (3,2,2)', h_voxelize, timeout=3600, sz=(3, 2, 2)))
+    out.append(inst('voxelize flat plate (2,2,2)', h_voxelize, timeout=1800, sz=(2, 2, 2), flat=True))
+    out.append(inst('voxelize flat plate (3,2,2) num_procs=2', h_voxelize, timeout=1800, sz=(3, 2, 2), flat=True, num_procs=2))
     # worker pools (model: order-preserving map over copies, see core.SerialPool; the float replay uses real processes)
     for np_ in ((2, 3) if quick else (2, 3, 4, 8)):
         out.append(inst('voxelize bilinear patch (2,2,2) num_procs=%d' % np_, h_voxelize, timeout=1800, sz=(2, 2, 2), num_procs=np_))
